@@ -264,6 +264,8 @@ func TestC17Request(t *testing.T) {
 			rq.P.DelayMs = 50
 			// a key may come twice with the same value
 			rq.P.Repeat = oneOf(rt, "repeat", []string(nil), nil, []string{"skip-private-hops"}, []string{"skip-private-hops", "reverse-dns", "max-ttl"})
+			// the flag may be spelt in any way the handler's boolean parser takes
+			rq.P.BoolStyle = oneOf(rt, "bool_style", "", "", "digit", "letter", "LETTER", "UPPER", "Title")
 		}
 		if rq.P.Protocol == "tcp" {
 			v6 = false
